@@ -13,6 +13,7 @@ import (
 	"io"
 	"mime"
 	"net/http"
+	"strconv"
 	"strings"
 	"testing"
 
@@ -755,7 +756,7 @@ func TestCheck(t *testing.T) {
 	srv.opts = nil
 
 	// 5. API errors keep status and message
-	msgs := []string{"", "not found", "ünïcödé ✓", `{"Message":"x","Status":1}`, "multi word message: with colon"}
+	msgs := []string{"", "not found", "ünïcödé ✓", `{"Message":"x","Status":1}`, "multi word message: with colon", "unsupported media type: [text/%2A]", "100% of %s %d %v%", "%!d(MISSING)"}
 	for status := 400; status <= 599; status++ {
 		for mi, msg := range msgs {
 			key := fmt.Sprintf("apierror|%d|%d", status, mi)
@@ -772,6 +773,23 @@ func TestCheck(t *testing.T) {
 			var ae *apierror.Error
 			if !errors.As(back, &ae) || ae.Status() != status || ae.Error() != msg {
 				r.Violation("apierror:encode-decode", key, fmt.Sprintf("(%d, %q) came back as %v", status, msg, back), nil)
+			}
+			// the one-line text of an API error (what a handler writes with
+			// http.Error(w, e.Text(), e.Status())) is the status, its standard
+			// text and the message, before and after encode/decode; and the
+			// error it wraps is the one it was made from
+			wantText := strconv.Itoa(status)
+			if t := http.StatusText(status); t != "" {
+				wantText += " " + t
+			}
+			wantText += ": " + msg
+			if got := orig.Text(); got != wantText {
+				r.Violation("apierror:text", key, fmt.Sprintf("Text() of (%d, %q) is %q, want %q", status, msg, got, wantText), nil)
+			} else if ae != nil && ae.Text() != wantText {
+				r.Violation("apierror:text", key, fmt.Sprintf("Text() of (%d, %q) after encode/decode is %q, want %q", status, msg, ae.Text(), wantText), nil)
+			}
+			if u := errors.Unwrap(error(orig)); u == nil || u.Error() != msg {
+				r.Violation("apierror:unwrap", key, fmt.Sprintf("Unwrap of (%d, %q) gives %v", status, msg, u), nil)
 			}
 			fr := apierror.FromResponse(status, []byte(msg+"\n"))
 			if !errors.As(fr, &ae) || ae.Status() != status || (msg != "" && ae.Error() != msg) {
